@@ -335,6 +335,7 @@ fn check_prog(c: &ProgCase, uuid_bug_open: bool, excluded: &AtomicU64) -> PResul
         .class_if(n_uuid == 1, "uuid_types_1")
         .class_if((2..=5).contains(&n_uuid), "uuid_types_2_5")
         .class_if(n_uuid > 5, "uuid_types_gt5")
+        .class_if(n_uuid > 256, "uuid_types_gt256")
         .class_if(pst.duplicates > 0, "duplicate_key_refused")
         .class_if(pst.over_limit > 0, "over_limit_refused")
         .class_if(mb1.raw_items() == MAX_ITEMS, "1024_items")
@@ -371,7 +372,21 @@ fn op_strategy(many_uuids: bool, data_kind: u8, wide_ids: bool) -> BoxedStrategy
         .boxed()
 }
 
+/// Programs that use 257..420 distinct UUID types in generated (shuffled) order.
+fn huge_uuid_ops_strategy() -> BoxedStrategy<Vec<AddOp>> {
+    let op = (crate::c09_delta::type_sel_strategy_huge(), 0u16..3, data_strategy(0), prop_oneof![3 => Just(None), 1 => Just(Some(0))])
+        .prop_map(|(ty, id, data, base)| AddOp { ty, id, data, base });
+    proptest::collection::vec(op, 380..700).boxed()
+}
+
 fn ops_strategy(many_uuids: bool) -> BoxedStrategy<Vec<AddOp>> {
+    if many_uuids {
+        return prop_oneof![4 => ops_strategy_inner(true), 1 => huge_uuid_ops_strategy()].boxed();
+    }
+    ops_strategy_inner(false)
+}
+
+fn ops_strategy_inner(many_uuids: bool) -> BoxedStrategy<Vec<AddOp>> {
     prop_oneof![
         6 => proptest::collection::vec(op_strategy(many_uuids, 0, false), 0..16),
         3 => proptest::collection::vec(op_strategy(many_uuids, 0, false), 10..100),
